@@ -130,6 +130,31 @@ func msgDomain(md protoreflect.MessageDescriptor, depth int, thorough bool) []nv
 		m2.Set(firstMsg, sub[0].v) // holds an EMPTY nested message
 		out = append(out, nv{"holds-empty", protoreflect.ValueOfMessage(m2)})
 	}
+	// deep nesting: a chain of 120 messages through a self-referential field, and a google.protobuf.Struct nested 150 objects
+	// deep (300 message levels: Struct -> Value -> Struct ...). Far below the reference runtime's limit of 10 000, far above
+	// what hand-written examples reach; decoders that recurse through a runtime call per level meet that runtime's limits
+	if depth > 0 && firstMsg != nil && firstMsg.Message().FullName() == md.FullName() {
+		inner := one()
+		for i := 0; i < 120; i++ {
+			outer := one()
+			outer.Set(firstMsg, protoreflect.ValueOfMessage(inner))
+			inner = outer
+		}
+		out = append(out, nv{"chain-of-120", protoreflect.ValueOfMessage(inner)})
+	}
+	if depth > 0 && md.FullName() == "google.protobuf.Struct" {
+		ff := fds.ByName("fields")
+		vd := ff.MapValue().Message()
+		inner := mk()
+		for i := 0; i < 150; i++ {
+			v := dynamicpb.NewMessage(vd)
+			v.Set(vd.Fields().ByName("struct_value"), protoreflect.ValueOfMessage(inner))
+			outer := mk()
+			outer.Mutable(ff).Map().Set(protoreflect.ValueOfString("k").MapKey(), protoreflect.ValueOfMessage(v))
+			inner = outer
+		}
+		out = append(out, nv{"struct-150-objects-deep", protoreflect.ValueOfMessage(inner)})
+	}
 	if depth > 0 && firstRepMsg != nil {
 		m := one()
 		l := m.Mutable(firstRepMsg).List()
